@@ -81,7 +81,7 @@ def implied(b, ex, e, val, depth=0):
                 continue
             # the definition was executed, so what its block is guarded by held as well
             # (`let ok = a && b;` defines ok := b only under a)
-            s_ = s_ | known_atoms(b, ex, dloc[0], depth + 3)
+            s_ = s_ | _known_all(b, ex, dloc[0], depth + 3)
             if len(cands) == 1:
                 s_ = s_ | {("lastdef", l, dloc)}
             sets.append(s_)
@@ -137,13 +137,15 @@ def implying_edges(b, ex, want):
     return out
 
 
-def known_atoms(b, ex, bb, depth=0):
-    """Atoms known on entry to block bb: union of the atoms of every bool-switch edge that dominates bb."""
+def _known_all(b, ex, bb, depth=0):
+    """Everything known on entry to bb: bool atoms of dominating bool-switch edges (with what they
+    imply) and ("switchfact", discr, vals|None, excl) for dominating edges of other switches."""
     if depth > 6:
         return set()
     cache = ex.__dict__.setdefault("_known_atoms_cache", {})
     if (bb, depth) in cache:
         return cache[(bb, depth)]
+    from .cond import dominating_facts
     out = set()
     for s in b.normal:
         if s not in b.reachable or b.term(s)["k"] != "switch" or not edge_truths(b, s):
@@ -158,5 +160,112 @@ def known_atoms(b, ex, bb, depth=0):
             if INFEASIBLE in atoms:
                 continue
             out |= {a for a in atoms if a[0] != "lastdef"}
+    for d, vals, excl, s, tg in dominating_facts(b, ex, bb):
+        if b.term(s).get("discr_ty") != "bool":
+            out.add(("switchfact", d, tuple(vals) if vals is not None else None, tuple(excl)))
     cache[(bb, depth)] = out
     return out
+
+
+def known_atoms(b, ex, bb, depth=0):
+    """Bool atoms (expr, truth) known on entry to block bb: the atoms of every bool-switch edge that
+    dominates bb, including what named / composed conditions imply."""
+    return {a for a in _known_all(b, ex, bb, depth) if len(a) == 2 and isinstance(a[1], bool)}
+
+
+def known_switch_facts(b, ex, bb):
+    """[(discr expr, vals|None, excl)] known on entry to bb from non-bool switches (`match`, `if let`,
+    iterator `next`): those whose edge dominates bb, and those that guarded the one definition of a
+    named boolean that a dominating edge implies (`let done = loop-with-early-return-false; if !done {..}`)."""
+    return [(a[1], list(a[2]) if a[2] is not None else None, list(a[3])) for a in _known_all(b, ex, bb) if a[0] == "switchfact"]
+
+
+# ---- feasible reachability: branches correlated through constant-valued boolean locals ------------
+def _block_bool_defs(b):
+    """{block: [(local, const value or None)]} in program order: whole definitions of bool locals."""
+    out = {}
+    for bb in b.normal:
+        if bb not in b.reachable:
+            continue
+        lst = []
+        for st in b.stmts(bb):
+            if st["k"] == "assign" and not st["place"]["proj"] and b.local_ty(st["place"]["local"]) == "bool":
+                rv = st["rv"]
+                c = None
+                if rv["k"] == "use" and rv["op"]["k"] == "const" and rv["op"].get("ty") == "bool" and "val" in rv["op"]:
+                    c = bool(rv["op"]["val"])
+                elif rv["k"] == "use" and rv["op"]["k"] in ("copy", "move") and not rv["op"]["place"]["proj"]:
+                    c = ("copy", rv["op"]["place"]["local"])
+                lst.append((st["place"]["local"], c))
+        t = b.term(bb)
+        if t["k"] == "call" and not t["dest"]["proj"] and b.local_ty(t["dest"]["local"]) == "bool":
+            lst.append((t["dest"]["local"], None))
+        if lst:
+            out[bb] = lst
+    return out
+
+
+def _eval3(e, know):
+    k = e[0]
+    if k == "const" and isinstance(e[1], bool):
+        return e[1]
+    if k == "un" and e[1] == "Not":
+        v = _eval3(e[2], know)
+        return None if v is None else (not v)
+    if k == "bin" and e[1] in ("Eq", "Ne") and (_is_bool_const(e[2]) or _is_bool_const(e[3])):
+        c, x = (e[2], e[3]) if _is_bool_const(e[2]) else (e[3], e[2])
+        v = _eval3(x, know)
+        if v is None:
+            return None
+        return (v == c[1]) == (e[1] == "Eq")
+    if k == "var":
+        return know.get(e[1])
+    return None
+
+
+def feasible_reach(b, ex, start, removed_nodes=(), removed_edges=(), limit=50000):
+    """Blocks reachable from the successors of block `start` on paths that are consistent in the
+    constant booleans they assign and later test: after `done = false` the edge `done == true` of a
+    later switch on `done` is not taken (until `done` is assigned again).  A superset of the truly
+    feasible paths, a subset of plain CFG reachability."""
+    rn, re_ = set(removed_nodes), set(removed_edges)
+    defs = _block_bool_defs(b)
+
+    def after(bb, know):
+        k = dict(know)
+        for l, c in defs.get(bb, ()):
+            if isinstance(c, tuple):
+                c = k.get(c[1])
+            if c is None:
+                k.pop(l, None)
+            else:
+                k[l] = c
+        return k
+
+    def succs(bb, know):
+        t = b.term(bb)
+        ss = b.succ.get(bb, [])
+        if t["k"] == "switch" and know:
+            tr = edge_truths(b, bb)
+            if tr:
+                v = _eval3(ex.switch_discr(bb), know)
+                if v is not None:
+                    ss = [x for x in ss if tr.get(x, v) == v]
+        return ss
+    seen_states, seen_blocks = set(), set()
+    k0 = after(start, {})
+    work = [(x, frozenset(k0.items())) for x in succs(start, k0) if x not in rn and (start, x) not in re_]
+    while work and len(seen_states) < limit:
+        st = work.pop()
+        if st in seen_states:
+            continue
+        seen_states.add(st)
+        bb, kn = st
+        seen_blocks.add(bb)
+        k1 = after(bb, dict(kn))
+        fk = frozenset(k1.items())
+        for x in succs(bb, k1):
+            if x in rn or (bb, x) in re_:
+                continue
+            work.append((x, fk))
+    return seen_blocks
